@@ -9,6 +9,8 @@ import JanetModel.Strtod.Approx
 import JanetModel.Strtod.EndToEnd
 import JanetModel.Strtod.RoundTrip
 import JanetModel.Strtod.WrapFree
+import JanetModel.Strtod.Log2Cert
+import JanetModel.Strtod.Rational
 
 namespace JanetModel.Props.C13
 open JanetModel.Strtod JanetModel.Gen.Strtod
@@ -443,6 +445,46 @@ example : scanNumberBase [48, 120, 49, 46, 56, 112, 51] 0 = some 0x4028000000000
 example : ulps 0x4028000000000000 * 2 = 24 * 2 ^ 1074 := by decide +kernel
 example : ClampSafe 1000000 := clamp_safe _
 
+/-! ### END TO END in rationals, every side condition discharged -/
+
+/-- ★ the libm values `log2((double) b)` recorded for this run (Gen/Strtod.lean, regenerated) are within one unit in the
+    last place of the true logarithms, b = 2..36: the former named assumption `Log2Within1Ulp` is a THEOREM about the
+    current table.  Certificate: 50–52 interval squarings on 192-bit fixed point (`certStep_inv`), evaluated by the kernel
+    (`certOK_all`); 2^⌊K·log2 b⌋ ≤ b^K < 2^(⌊K·log2 b⌋+1) with K = 2^50..2^52 is never formed explicitly. -/
+theorem log2_table_within_1ulp (b : Nat) (h2 : 2 ≤ b) (h36 : b ≤ 36) : Log2Within1Ulp b :=
+  JanetModel.Strtod.log2_table_within_1ulp b h2 h36
+
+/-- ★★★ `scan_end_to_end` — ONE statement, in rational numbers, with no hypothesis left but the API's radix bound.
+    For EVERY byte string `str` and radix parameter `base0 ≤ 36` on which the C-TYPED model of `janet_scan_number_base`
+    (`scanNumberBaseW`: the model the harness diffs against the real function, `uint64_t`/`uint32_t` intermediates
+    reduced modulo 2^width) returns `bits`:  `bits = sign(text) | mag`, `mag ≤ +inf`, and with `v = M·b^E ∈ ℚ` the
+    magnitude DENOTED by the text (`denote`: sign, `_`, radix prefix `0x`/`Dr`/`DDr`, point, marker `& e E p P`, exponent
+    sign/digits — grammar only) and `dval` the rational value of a pattern (+inf ≙ 2^1024):
+      (1) if some double has exactly the value `v`, the result has the value `v`  (exact when representable);
+      (2) every double below the result is `< v` and every double above it is `> v`  (otherwise one of the two doubles
+          adjacent to `v` — subnormals on their grid, ±0 / 2^−1074 below the smallest subnormal, DBL_MAX / ±inf above
+          DBL_MAX).
+    Glue discharged inside: wrap-freedom (`wrap_free`), the int32 exponent and its clamp (`clamp_safe`), the libm table
+    (`log2_table_within_1ulp`), plumbing (`scanner_plumbing_correct`), `convert_faithful`.  Nothing is `_partial` here. -/
+theorem scan_end_to_end (str : List Nat) (base0 : Nat) (hb : base0 ≤ 36) (bits : Nat)
+    (h : scanNumberBaseW str base0 = some bits) :
+    ∃ mag, mag ≤ infBits ∧ bits = withSign (denote str base0).neg mag ∧
+      (∀ k, k ≤ infBits → dval k = (denote str base0).absVal → dval mag = (denote str base0).absVal) ∧
+      (∀ k, k ≤ infBits → dval k < dval mag → dval k < (denote str base0).absVal) ∧
+      (∀ k, k ≤ infBits → dval mag < dval k → (denote str base0).absVal < dval k) :=
+  scan_end_to_end_q str base0 hb bits h
+
+/-- non-vacuity / sanity of the rational reading: "0x1.8p3" is accepted, denotes 24·2^−1 = 12 and the result 0x4028… has
+    rational value 12; "1e400" denotes 10^400 and reads as +inf (value 2^1024 in `dval`) -/
+example : scanNumberBaseW [48, 120, 49, 46, 56, 112, 51] 0 = some 0x4028000000000000 := by decide +kernel
+example : (denote [48, 120, 49, 46, 56, 112, 51] 0).absVal = 12 := by
+  have : denote [48, 120, 49, 46, 56, 112, 51] 0 = ⟨false, 24, 2, -1⟩ := by decide +kernel
+  rw [this]; norm_num [Lit.absVal]
+example : dval 0x4028000000000000 = 12 := by
+  have : ulps 0x4028000000000000 = 12 * 2 ^ 1074 := by decide +kernel
+  unfold dval; rw [this]; push_cast; field_simp
+example : scanNumberBaseW [49, 101, 52, 48, 48] 0 = some infBits := by decide +kernel
+
 /-! ### the 17-digit round trip: READING side closed, printing side = one explicit libc hypothesis -/
 
 /-- EXPLICIT LIBC HYPOTHESIS — the only thing assumed about `snprintf("%.17g", x)` (janet_buffer_dtostr, `%j`): the text
@@ -468,16 +510,17 @@ def LibcPrinted17 (l : Lit) (k : Nat) : Prop :=
     when the text lies just below a power of two — then the reader rounds up to 2^53 and renormalises; the magnitude
     conjunct excludes a coarser grid; for subnormal `k` the second rounding inside `ldexp` sees a value strictly within
     half an ulp of `k`, so double rounding is harmless; overflow impossible).
-    What remains outside (hypotheses, stated explicitly): (1) `LibcPrinted17` — libc; (2) that the printed text is
-    ACCEPTED by the scanner (`h`): `%.17g` output has the shape `[-]d[.ddd][e±dd]`, tested on every `p17` case;
-    (3) `Log2Within1Ulp` for the radix (discharged by `log2_table_within_1ulp` when the table certificate builds). -/
+    Stated about the C-TYPED model (`wrap_free`); the libm `log2` table is certified (`log2_table_within_1ulp`), the clamp
+    condition discharged.  What remains outside (hypotheses, stated explicitly): (1) `LibcPrinted17` — libc; (2) that the
+    printed text is ACCEPTED by the scanner (`h`): `%.17g` output has the shape `[-]d[.ddd][e±dd]`, tested on every `p17`
+    case (25 000 per quick run, every binade boundary ±1, every subnormal width). -/
 theorem print17_roundtrip (str : List Nat) (base0 : Nat) (hb : base0 ≤ 36)
-    (hL : ∀ b, 2 ≤ b → b ≤ 36 → Log2Within1Ulp b)
-    (bits : Nat) (h : scanNumberBase str base0 = some bits) (k : Nat) (hk0 : 0 < k) (hk : k < infBits)
+    (bits : Nat) (h : scanNumberBaseW str base0 = some bits) (k : Nat) (hk0 : 0 < k) (hk : k < infBits)
     (hlibc : LibcPrinted17 (denote str base0) k) :
     bits = withSign (denote str base0).neg k := by
+  rw [scanNumberBaseW_eq str base0 hb] at h
   obtain ⟨hb10, d, jp, jn, hd, hval, h1, h2⟩ := hlibc
-  apply scan_roundtrip str base0 hb hL (Or.inr (by decide)) bits h k hk0 hk
+  apply scan_roundtrip str base0 hb (fun b h2 h36 => log2_table_within_1ulp b h2 h36) (Or.inr (by decide)) bits h k hk0 hk
   rw [hb10]
   exact close17_of_half_unit _ _ _ d (10 ^ jp * 2 ^ 1074) (10 ^ jn) hd (Nat.pow_pos (by decide)) hval h1 h2
 
